@@ -78,10 +78,10 @@ func c09Limits(root bool, o c09Opts) (hdr, sec uint64) {
 		return m, m
 	}
 	hdr, sec = o.Hdr, o.Sec
-	if hdr == 0 {
+	if hdr == 0 && !o.HdrZero {
 		hdr = c09DefaultHdr
 	}
-	if sec == 0 {
+	if sec == 0 && !o.SecZero {
 		sec = c09DefaultSec
 	}
 	return
@@ -233,13 +233,13 @@ type c09EP struct {
 
 const c09MixPattern = "NSSNSNNS"
 
-func c09BlockReader(mode, src string) func(*c09Ctx) error {
+func c09BlockReader(mode, src string, extra ...carv2.Option) func(*c09Ctx) error {
 	return func(c *c09Ctx) error {
 		r, err := c.source(src)
 		if err != nil {
 			return err
 		}
-		br, err := carv2.NewBlockReader(r, c.opts...)
+		br, err := carv2.NewBlockReader(r, append(append([]carv2.Option{}, c.opts...), extra...)...)
 		if err != nil {
 			return err
 		}
@@ -466,6 +466,11 @@ func c09MakeEPs() []c09EP {
 				hdrV1: true, okV1: true, hdrV2: true, okV2: true, sections: true, secBuf: buf})
 		}
 	}
+	// "trusted" only waives the hash check: every limit stays in force
+	for _, mode := range []string{"Next", "Mixed"} {
+		eps = append(eps, c09EP{name: "v2.BlockReader." + mode + "(bytes.Reader, WithTrustedCAR)", fn: c09BlockReader(mode, "bytes.Reader", carv2.WithTrustedCAR(true)),
+			hdrV1: true, okV1: true, hdrV2: true, okV2: true, sections: true, secBuf: "stream"})
+	}
 	eps = append(eps,
 		c09EP{name: "v2.NewReader+Roots", fn: c09Reader("Roots"), hdrV1: true, okV1: true, hdrV2: true, okV2: true},
 		c09EP{name: "v2.NewReader+DataReader", fn: c09Reader("DataReader"), hdrV1: true, okV1: true, okV2: true},
@@ -566,10 +571,10 @@ func c09EPByName(name string) *c09EP {
 
 func c09Options(o c09Opts) []carv2.Option {
 	var out []carv2.Option
-	if o.Hdr > 0 {
+	if o.Hdr > 0 || o.HdrZero {
 		out = append(out, carv2.MaxAllowedHeaderSize(o.Hdr))
 	}
-	if o.Sec > 0 {
+	if o.Sec > 0 || o.SecZero {
 		out = append(out, carv2.MaxAllowedSectionSize(o.Sec))
 	}
 	if o.ZeroEOF {
